@@ -462,7 +462,8 @@ static void mode_a(Case &c) {
 		case 18: case 19: { // dup
 			int j = W.pick_live(c); int f = W.pick_free(); if (f < 0) break;
 			W.op("dup(s" + std::to_string(j) + "->s" + std::to_string(f) + ")");
-			lzma_index *d = lzma_index_dup(W.s[j].idx, AL()); if (!d) harness_bug("lzma_index_dup returned NULL");
+			lzma_index *d = lzma_index_dup(W.s[j].idx, AL());
+			if (!d) { if (g_alp->refused_cap) { count("environment_alloc_cap"); break; } violation("C13:dup-failed", "lzma_index_dup returned NULL although no allocation was refused"); }
 			W.s[f].idx = d; W.s[f].m = W.s[j].m; W.s[f].checks_reliable = W.s[j].checks_reliable; W.s[f].over = W.s[j].over; W.s[f].checks_suspect = W.s[j].checks_suspect || W.s[j].m.stream_count() > 1;
 			check_slot(W, j, "source after dup");
 			// every observable equal to the source, lzma_index_checks first (known defect has its own signature)
